@@ -22,9 +22,9 @@ CFG = {
     "quick":    dict(mc="MC_TypedBuf.cfg",   gen="Gen_TypedBuf.cfg",   nhist=40,  steps=60),
     "thorough": dict(mc="MC_TypedBuf_t.cfg", gen="Gen_TypedBuf_t.cfg", nhist=300, steps=100),
 }
-REC_KEYS = ("vals", "lens", "typs", "irefs", "nlive", "bad", "dead", "dup", "orph")
-ARR_KEYS = ("vals", "lens", "typs", "irefs")
-IDN_KEYS = ("vals", "lens", "typs")
+REC_KEYS = ("vals", "lens", "typs", "irefs", "nlive", "bad", "dead", "dup", "orph", "refok")
+ARR_KEYS = ("vals", "lens", "typs", "irefs", "refok")
+IDN_KEYS = ("vals", "lens", "typs", "refok")
 CKINDS = ("rec", "arr", "meta", "idn")
 
 
@@ -36,7 +36,7 @@ CAP_OPS = ("bufinsert", "bufset")
 def make_match(keys):
     def match(exp, obs):
         for k in keys:
-            if obs.get(k) != exp[k]:
+            if k in exp and obs.get(k) != exp[k]:
                 return "%s: expected %s, observed %s" % (k, json.dumps(exp[k])[:300], json.dumps(obs.get(k))[:300])
         if exp["ret"] != "any" and obs.get("ret") != exp["ret"]:
             return "ret: expected %s, observed %s" % (exp["ret"], obs.get("ret"))
@@ -136,7 +136,8 @@ def build(api):
 
 def has_fail(beh):
     """needs the recording kind: a failing constructor or the second managed element type"""
-    return any((s.get("arg") or {}).get("fail") or (s.get("arg") or {}).get("typ") == "elemB" for s in beh)
+    return any((s.get("arg") or {}).get("fail") or (s.get("arg") or {}).get("dfail") or (s.get("arg") or {}).get("typ") == "elemB"
+               for s in beh)
 
 
 def nontrivial(recs):
@@ -271,7 +272,9 @@ def gen_histories(ck, n, steps, kind, nh=4, nv=3):
                 k = rng.choice([0, 0, 1, 2, max(0, est[h] - p), max(0, est[h] - p) + 1, est[h]])
                 beh.append({"a": op, "arg": {"h": h + 1, "off": p, "n": k}})
             elif op == "bufinsert":
-                beh.append({"a": op, "arg": {"h": h + 1, "pos": position(h), "data": fresh(count(h))}})
+                p = position(h)
+                beh.append({"a": op, "arg": {"h": h + 1, "pos": p, "data": fresh(count(h)),
+                                             "dfail": rng.choice([1, 1, 2, 3]) if kind == "rec" and p > est[h] and rng.random() < 0.5 else 0}})
             elif op == "insert":
                 k, p = count(h), position(h)
                 beh.append({"a": op, "arg": {"h": h + 1, "pos": p, "data": fresh(k), "fail": fail(h, 0)}})
